@@ -125,6 +125,13 @@ for n, b in [("id_range", "IdRange::decode (count 1, every payload, every prefix
     c10("t8_%s_reencode" % n, "T8", b + "; then the real Encode impl against the recording Encoder",
         "a successfully decoded value can be encoded again (no panic)")
 
+for n, b in [("any_int2", "Any::decode integer (tag 125), every 2-byte payload"),
+             ("any_int10", "Any::decode integer (tag 125), every 10-byte payload (all var-int widths of i64)"),
+             ("any_buffer2", "Any::decode buffer (tag 116), length byte 2, every 2-byte payload")]:
+    c10("t8_%s_reencode" % n, "T8", b + "; the decoded payload is asserted to be of the tag's kind, re-wrapped "
+        "(concrete discriminant) and run through the real Any::encode against the recording Encoder",
+        "a successfully decoded value can be encoded again (no panic)")
+
 STUBS += [
     "C10 allocation-limit stubs: Vec::with_capacity, SmallVec::with_capacity, HashMap::with_capacity, "
     "HashMap::with_capacity_and_hasher assert requested <= input length (+1024 only for the constant of "
@@ -146,9 +153,11 @@ ASSUMPTIONS["C10"] = [
     "a fallible reservation (try_reserve) from an untrusted count is accepted; only infallible "
     "capacity requests are bounded by the input length",
     "'a decoded value can be encoded again' is decided by decode-then-encode against a recording Encoder (T8) "
-    "for delete-set ranges, sticky indexes, Any f32/f64/BigInt and GC/Skip blocks only; item blocks, Any "
-    "int/string/buffer and messages did not finish and rest on the image constraints the decoders' harnesses "
-    "assert (ranges ordered, sign flags consistent, client ids < 2^53)",
+    "for delete-set ranges, sticky indexes, Any f32/f64/BigInt/integer (all var-int widths) / 2-byte buffer "
+    "and GC/Skip blocks only; item blocks, Any string and messages did not finish and rest on the image "
+    "constraints the decoders' harnesses assert (ranges ordered, sign flags consistent, client ids < 2^53). "
+    "The integer and buffer instances re-wrap the decoded payload in a fresh Any of the asserted kind "
+    "before encoding (keeps the enum discriminant concrete for the solver; the payload is the decoder's)",
     "recursion depth of Any::decode is proportional to input length (known finding F10-e), the harnesses "
     "bound nesting by the unwind value",
     "merge_updates / diff_updates / Update::decode past one block / StateVector and AwarenessUpdate past "
